@@ -56,7 +56,7 @@ STEPS = {
 
 
 @contract('C03', 'step', variants=[dict(f=k) for k in STEPS], optional=True, no_safety=True, feas_timeout_ms=1000,
-          budget_s=400, max_paths=300, functions=sorted(STEPS))
+          budget_s=300, max_paths=300, timeout_ms=30000, functions=sorted(STEPS))
 def c_step(c):
     """recursive filter step from a unit prior: one unit quaternion out, on every path"""
     mag, fn = STEPS[c.p['f']]
@@ -93,8 +93,11 @@ SINGLE = {
 }
 
 
-@contract('C03', 'single-frame', variants=[dict(f=k) for k in SINGLE], optional=True, no_safety=True, feas_timeout_ms=1000,
-          budget_s=400, max_paths=400, functions=sorted(SINGLE))
+SLOW_SINGLE = ('TRIAD.rotmat', 'TRIAD.quaternion', 'FQA')
+
+
+@contract('C03', 'single-frame', variants=[dict(f=k) for k in SINGLE if k not in SLOW_SINGLE], optional=True, no_safety=True, feas_timeout_ms=1000,
+          budget_s=300, max_paths=400, timeout_ms=30000, functions=sorted(SINGLE))
 def c_single(c):
     """single-frame estimators on arbitrary (not necessarily consistent) non-parallel samples: a unit quaternion /
     orthogonal matrix on every path"""
@@ -104,6 +107,12 @@ def c_single(c):
         _unit(c, out)
     else:
         _proper(c, out)
+
+
+@contract('C03', 'single-frame.thorough', variants=[dict(f=k) for k in SLOW_SINGLE], optional=True, no_safety=True, feas_timeout_ms=1000,
+          budget_s=3000, max_paths=2000, thorough_only=True, functions=['TRIAD.estimate', 'FQA.estimate'])
+def c_single_t(c):
+    c_single(c)
 
 
 @contract('C03', 'history', variants=[dict(f=k) for k in ('Madgwick', 'Mahony', 'AngularRate', 'AQUA')],
